@@ -49,7 +49,15 @@ def regroup(draw, items):
     return args
 
 
-def spell_args(args, how, vars_):
+def as_tuples(v, depth=0):
+    # the same arrays handed over as tuples (rows of a database cursor, a namedtuple): every other level, so that lists and tuples mix
+    if isinstance(v, list):
+        inner = [as_tuples(x, depth + 1) for x in v]
+        return tuple(inner) if depth % 2 == 0 else inner
+    return v
+
+
+def spell_args(args, how, vars_, tuples=False):
     names = []
     for i, a in enumerate(args):
         n = 'v_%s' % 'abcdefghij'[i]
@@ -59,7 +67,7 @@ def spell_args(args, how, vars_):
                 continue
             except NoLiteral:
                 pass
-        vars_[n] = dec(a)
+        vars_[n] = as_tuples(dec(a)) if tuples else dec(a)
         names.append(n)
     return names
 
@@ -94,14 +102,14 @@ def connective_case(draw):
     nerr = draw(st.sampled_from([0, 0, 0, 1, 1, 2]))
     for _ in range(nerr):
         items[draw(st.integers(0, len(items) - 1))] = err(draw(st.sampled_from(CODES8)))
-    return {'items': items, 'args': regroup(draw, items), 'how': draw(st.sampled_from(['var', 'lit']))}
+    return {'items': items, 'args': regroup(draw, items), 'how': draw(st.sampled_from(['var', 'lit'])), 'tuples': draw(st.integers(0, 4)) == 0}
 
 
 def check_connective(case):
     args = case['args']
     items = flat(args)
     vars_ = {}
-    names = spell_args(args, case['how'], vars_)
+    names = spell_args(args, case['how'], vars_, tuples=bool(case.get('tuples')))
     env = Env(vars=vars_)
     e = first_error(items)
     tvs = [tv(x) for x in items if not is_errspec(x)]
